@@ -1,3 +1,4 @@
+import Gopki.Base.Pem
 import Driver.Common
 import Gopki.Model.Pkcs8
 /-! `pkcs8` and `pemfile` (C17, C15): private keys through the PKCS#8 writer and reader; PEM files
@@ -122,8 +123,35 @@ def opPemFile : OpFn := fun _ inp out => do
     ("C17: request block not read back as the same request", implCsr == complete "csr" && (!implCsr || sameCsr)),
     ("C15: importPem does not keep exactly the decodable parts (key preferred over request)",
       artCert == implCert && artKey == implKey && artCsr == (implCsr && !implKey))]
-  let ff := firstFail checks
-  pure { corr := ff.isNone, spec := ff.isNone, clause := ff.getD "", nontrivial := !kinds.isEmpty,
-         branch := (if cut < 0 then "whole:" else "torn:") ++ String.intercalate "+" kinds }
+  -- the PEM text itself: the model of `pem.Decode` / `pem.Encode` (Gopki.Base.Pem) against the standard library, block by block
+  let text : Bytes := ((out.getObjValAs? String "textHex").toOption.bind hexToBytes).getD []
+  let goBlocks : List Json := (out.getObjValAs? (List Json) "blocks").toOption.getD []
+  let goTrailing : Bool := (out.getObjValAs? Bool "trailing").toOption.getD false
+  let (mBlocks, mTrailing) := Pem.readAll (text.length + 1) text
+  let goPairs : List (Bytes × Bytes) := goBlocks.map fun j =>
+    (((j.getObjValAs? String "type").toOption.getD "").toUTF8.toList, ((j.getObjValAs? String "bytes").toOption.bind hexToBytes).getD [])
+  let decodeAgrees := mBlocks.map (fun b => (b.type, b.bytes)) == goPairs && mTrailing == goTrailing
+  let encodeAgrees := goBlocks.all fun j =>
+    (j.getObjValAs? Nat "headers").toOption != some 0 ||
+    ((j.getObjValAs? String "reenc").toOption.bind hexToBytes) ==
+      some (Pem.encode ((j.getObjValAs? String "type").toOption.getD "").toUTF8.toList (((j.getObjValAs? String "bytes").toOption.bind hexToBytes).getD []))
+  -- a file gopki wrote: hash line, certificate, key — exactly the model's text
+  let gopkiFile : Bytes := ((out.getObjValAs? String "gopkiFile").toOption.bind hexToBytes).getD []
+  let matCert := ((out.getObjValAs? String "matCert").toOption.bind hexToBytes).getD []
+  let matKey := ((out.getObjValAs? String "matKey").toOption.bind hexToBytes).getD []
+  let hashOfFile : Option Bytes := V1.goB64Decode (((Pem.splitNl gopkiFile).1).drop 6)
+  let fileAgrees := match hashOfFile with
+    | some h => Pem.exportFile h (some matCert) (some matKey) none == gopkiFile
+    | none => false
+  let raw := (inp.getObjValAs? String "raw").toOption.getD ""
+  let modelFail : Option String :=
+    if !decodeAgrees then some "the model of pem.Decode reads other blocks from this text than the standard library"
+    else if !encodeAgrees then some "the model of pem.Encode writes another text for a block than the standard library"
+    else if !fileAgrees then some "the file gopki wrote is not hash line + certificate block + key block as the model writes them"
+    else none
+  -- statement on the model's own reading: what gopki's ReadPem found is what the text holds
+  let ff := if raw != "" then none else firstFail checks
+  pure { corr := ff.isNone && modelFail.isNone, spec := ff.isNone, clause := (ff.orElse fun _ => modelFail).getD "", nontrivial := !kinds.isEmpty,
+         branch := (if raw != "" then "raw:" ++ toString mBlocks.length else (if cut < 0 then "whole:" else "torn:") ++ String.intercalate "+" kinds) }
 
 end Driver
